@@ -15,6 +15,9 @@ use crate::{
 
 pub struct X {
     temporaries: bool,
+    /// timers that force-send with instant handlers: a tick can only be handled at the instant
+    /// it was sent, and sending needs an upgrade - so none may be handled later than the last drop
+    instant_ticks: bool,
 }
 
 fn is_strong(h: &H) -> bool {
@@ -47,6 +50,13 @@ fn oracle(s: &ProgScene<X>, t: &Trace) -> Vec<Violation> {
                     // the strong handle exists from somewhere inside the op
                     deltas.push((o.begin, 1));
                     held += 1;
+                }
+                // submitting through a weak handle upgrades it for the duration of the operation
+                Op::Send(H::WSnd(_), _) | Op::ForceSend(H::WSnd(_), _) | Op::Call(H::WCal(_), _) | Op::Halt(H::WAddr(_))
+                    if !matches!(o.res, Some(Res::Err(crate::world::ErrKind::AlreadyStopped))) =>
+                {
+                    deltas.push((o.begin, 1));
+                    deltas.push((o.end.unwrap_or(usize::MAX), -1));
                 }
                 Op::Drop(h) if is_strong(h) && ok => {
                     deltas.push((o.begin, -1));
@@ -108,6 +118,18 @@ fn oracle(s: &ProgScene<X>, t: &Trace) -> Vec<Violation> {
                     });
                 }
             }
+        }
+    }
+    // (B') a force-sending timer cannot deliver once no strong handle is left: with instant
+    // handlers a tick is handled at the virtual instant it was sent
+    if let (true, Some(ld), false) = (s.extra.instant_ticks, last_drop, stop_requested) {
+        let drop_time = t.log[ld].time;
+        if let Some(e) = an.enters.iter().find(|e| e.a == 0 && matches!(e.cb, Cb::Tick { .. }) && e.time > drop_time) {
+            out.push(Violation {
+                clause: "timers-do-not-keep-alive",
+                key: format!("C05/tick-after-last-strong-drop/{tk}/mailbox={mbn}"),
+                detail: format!("a timer tick was handled at t={} although the last strong handle had been dropped at t={drop_time}", e.time),
+            });
         }
     }
     // (C) upgrades
@@ -198,6 +220,7 @@ fn weak_observer() -> ClientSpec {
 enum Extras {
     None,
     Interval,
+    TwoIntervals,
     IntervalWithSlow,
     DelayedExec,
     Subscribed,
@@ -246,6 +269,10 @@ fn make_case(picks: &[usize], extras: Extras, mailbox: Mailbox, early: u32, boun
     match extras {
         Extras::None => {}
         Extras::Interval => role.started_actions.push(Action::Interval { timer: 1, period: 1 }),
+        Extras::TwoIntervals => {
+            role.started_actions.push(Action::Interval { timer: 1, period: 2 });
+            role.started_actions.push(Action::Interval { timer: 2, period: 3 });
+        }
         Extras::IntervalWithSlow => {
             role.started_actions.push(Action::IntervalWith { timer: 1, period: 1 });
             role.tick_work = Work { sleep: 2, ..Work::default() };
@@ -253,14 +280,17 @@ fn make_case(picks: &[usize], extras: Extras, mailbox: Mailbox, early: u32, boun
         Extras::DelayedExec => role.started_actions.push(Action::DelayedExec { timer: 1, delay: 3 }),
         Extras::Subscribed => role.started_actions.push(Action::Subscribe { topic: 1 }),
     }
-    let temporaries = !matches!(extras, Extras::None | Extras::DelayedExec);
+    // only a timer parked in `try_send` for mailbox space and the broker's fan-out hold a strong
+    // temporary across steps; `interval` upgrades, force-sends and lets go within one poll
+    let temporaries = matches!(extras, Extras::IntervalWithSlow | Extras::Subscribed);
+    let instant_ticks = matches!(extras, Extras::Interval | Extras::TwoIntervals);
     let desc = format!("lifetime mailbox={} extras={:?} early={} clients={}", mailbox.name(), extras, early, names.join(" | "));
     let ps = ProgScene {
         spawn: SpawnCfg::plain(mailbox),
         attach: Attach::None,
         roles: vec![role],
         clients,
-        extra: X { temporaries },
+        extra: X { temporaries, instant_ticks },
         oracle,
     };
     Case {
@@ -275,7 +305,7 @@ fn cases(tier: Tier) -> Vec<Case> {
     let mut v = vec![];
     let n = scripts().len();
     let mbs: &[Mailbox] = if tier == Tier::Quick { &[Mailbox::U, Mailbox::B(0)] } else { &[Mailbox::U, Mailbox::B(0), Mailbox::B(1)] };
-    let extras = [Extras::None, Extras::Interval, Extras::IntervalWithSlow, Extras::DelayedExec, Extras::Subscribed];
+    let extras = [Extras::None, Extras::Interval, Extras::TwoIntervals, Extras::IntervalWithSlow, Extras::DelayedExec, Extras::Subscribed];
     for &mb in mbs {
         for &ex in &extras {
             // the owner script can appear at most once
@@ -286,14 +316,15 @@ fn cases(tier: Tier) -> Vec<Case> {
                         continue;
                     }
                     let big = ex != Extras::None;
-                    v.push(make_case(&[i, j], ex, mb, 0, if big && tier == Tier::Quick { Some(3) } else { None }));
+                    let _ = big;
+                    v.push(make_case(&[i, j], ex, mb, 0, None));
                 }
             }
         }
         // timer expiry racing with runnable tasks
         for &ex in &[Extras::Interval, Extras::IntervalWithSlow] {
             for i in 0..n {
-                v.push(make_case(&[i], ex, mb, 1, if tier == Tier::Quick { Some(4) } else { None }));
+                v.push(make_case(&[i], ex, mb, 1, None));
             }
         }
     }
